@@ -206,6 +206,28 @@ pub fn install_quiet_panic_hook() {
     }));
 }
 
+/// Whether a caught panic message (as recorded by the quiet hook: "message @ file:line") comes
+/// from the library under test rather than from the lab: the lab's own files are compiled with
+/// relative paths, the path dependency with its absolute path.
+pub fn is_driver_panic(msg: &str) -> bool {
+    match msg.rsplit_once(" @ ") {
+        Some((_, loc)) => loc.starts_with('/') && !loc.contains("/.cargo/") && !loc.starts_with("/rustc/") && !loc.contains("/lab-src/") && !loc.contains("/verif/lab/"),
+        None => false,
+    }
+}
+
+static PANIC_PROP: std::sync::Mutex<Option<&'static str>> = std::sync::Mutex::new(None);
+
+/// The property under which a panic of the library that escapes a driver-level harness (valid
+/// calls, honest or explored device) is reported; None = such a panic is a machinery error.
+pub fn set_panic_prop(p: Option<&'static str>) {
+    *PANIC_PROP.lock().unwrap() = p;
+}
+
+pub fn panic_prop() -> Option<&'static str> {
+    *PANIC_PROP.lock().unwrap()
+}
+
 pub fn take_last_panic() -> Option<String> {
     LAST_PANIC.with(|p| p.borrow_mut().take())
 }
